@@ -120,10 +120,50 @@ def add_scalar(arr, s):
 
 
 # ---------------------------------------------------------------------- linear algebra (adjugate)
+def _const_matrix(M):
+    """Fraction matrix if every entry of the symbolic matrix is a rational constant (semi-symbolic blocks), else None"""
+    if M.dtype != object or M.ndim != 2 or M.shape[0] < 4:
+        return None
+    out = []
+    for i in range(M.shape[0]):
+        row = []
+        for j in range(M.shape[1]):
+            v = M[i, j]
+            c = v.as_const() if hasattr(v, "as_const") else None
+            if c is None:
+                return None
+            row.append(Fraction(c))
+        out.append(row)
+    return out
+
+
+def _gauss_jordan(F):
+    """exact inverse and determinant of a Fraction matrix (partial pivoting on non-zero)"""
+    n = len(F)
+    a = [list(r) + [Fraction(int(i == j)) for j in range(n)] for i, r in enumerate(F)]
+    d = Fraction(1)
+    for c in range(n):
+        p = next((r for r in range(c, n) if a[r][c] != 0), None)
+        if p is None:
+            raise ZeroDivisionError("singular constant matrix")
+        if p != c:
+            a[c], a[p] = a[p], a[c]; d = -d
+        pv = a[c][c]; d *= pv
+        a[c] = [x / pv for x in a[c]]
+        for r in range(n):
+            if r != c and a[r][c] != 0:
+                f = a[r][c]
+                a[r] = [x - f * y for x, y in zip(a[r], a[c])]
+    return [r[n:] for r in a], d
+
+
 def det(ops, M):
     n = M.shape[0]
     if n == 0:
         return ops.one()
+    F = _const_matrix(M)
+    if F is not None:
+        return ops.c(_gauss_jordan(F)[1])
     if n == 1:
         return M[0, 0]
     if n == 2:
@@ -139,6 +179,14 @@ def det(ops, M):
 def inv(ops, M):
     """(adj(M)/det(M), det(M))"""
     n = M.shape[0]
+    F = _const_matrix(M)
+    if F is not None:
+        Fi, dd = _gauss_jordan(F)
+        out = np.empty((n, n), dtype=object)
+        for i in range(n):
+            for j in range(n):
+                out[i, j] = ops.c(Fi[i][j])
+        return out, ops.c(dd)
     d = det(ops, M)
     out = np.empty((n, n), dtype=M.dtype)
     for i in range(n):
